@@ -12,6 +12,7 @@ import z3
 
 PROD_LIMIT = 4096  # max monomials of an expanded product before going opaque
 ENUM_LIMIT = 22  # max joint support for bit-parallel enumeration
+CONJ_EXPAND = 64  # conjunctions whose expansion could exceed this many monomials stay opaque gates
 
 ONE_M = frozenset()  # the empty monomial (constant 1)
 ZERO = frozenset()  # polynomial 0
@@ -166,6 +167,11 @@ def pand_many(ps):
         return ZERO
     if not ps:
         return ONE
+    est = 1
+    for p in ps:
+        est *= len(p)
+        if est > CONJ_EXPAND:  # keep the conjunction as a gate (its conjuncts stay visible: asserted true they become
+            return gate_and(ps)  # separate - mostly affine - equalities; sound either way, a gate is just less canonical)
     acc = ONE
     for i, p in enumerate(ps):
         r = pmul(acc, p)
@@ -452,6 +458,24 @@ def assume(p):
         for a in next(iter(p)):
             assume(norm_under_pc(pvar(a)))
     else:
+        # peel literal factors: p = a * q (every monomial contains a)  or  p = (1 ^ a) * q (p vanishes at a = 1)
+        if len(p) <= 512:
+            for a in sorted(patoms(p)):
+                if a in C.gates:
+                    continue
+                if all(a in m for m in p):
+                    rest = frozenset(m - {a} for m in p)
+                    assume(norm_under_pc(pvar(a)))
+                    assume(norm_under_pc(rest))
+                    return
+                at1 = ZERO
+                for m in p:
+                    at1 = at1 ^ frozenset([m - {a}])
+                if not at1:  # p(a=1) == 0  =>  p = (1 ^ a) * p(a=0)
+                    rest = frozenset(m for m in p if a not in m)
+                    assume(norm_under_pc(pvar(a) ^ ONE))
+                    assume(norm_under_pc(rest))
+                    return
         C.pc_other.append(p)
 
 
@@ -494,19 +518,41 @@ def _gauss_add(sub, p):
 def xor_solve(cons, want_model=False):
     """exact procedure for: affine equalities, conjunction gates of affine forms (=1) and their negations
     (disjunctions of affine disequalities). Returns None when some constraint is outside this fragment."""
-    eqs, disj = [], []
+    eqs, disj, others = [], [], []
     for c in cons:
         if pis_affine(c) and not (patoms(c) & set(C.gates)):
             eqs.append(c)
             continue
         lg = as_linear_gate(c)
         if lg is None:
-            return None
+            others.append(c)
+            continue
         neg, qs = lg
         if neg:
             disj.append(qs)
         else:
             eqs.extend(qs)
+    if others:
+        # a few small non-linear constraints (range restrictions of enum-valued inputs ...): split on their atoms
+        atoms = set()
+        for c in others:
+            atoms |= patoms(c)
+        if (atoms & set(C.gates)) or len(atoms) > 12:
+            return None
+        atoms = sorted(atoms)
+        for x in range(1 << len(atoms)):
+            env = {a: (x >> i) & 1 for i, a in enumerate(atoms)}
+            if not all(peval(c, dict(env)) for c in others):
+                continue
+            fixed = [pvar(a) if v else pvar(a) ^ ONE for a, v in env.items()]
+            r = _xor_linear(eqs + fixed, disj, want_model)
+            if r[0] == "sat":
+                return r
+        return "unsat", None
+    return _xor_linear(eqs, disj, want_model)
+
+
+def _xor_linear(eqs, disj, want_model):
     sub = {}
     for e in eqs:
         if not _gauss_add(sub, e):
